@@ -373,3 +373,26 @@ Definition from_tensor_nodes (t : rtree) (lg : nat -> nat) (shape : list nat) :=
   if negb (Nat.even (length shape)) then None else
   if negb (half =? size t) then None else
   Some (ft_nodes t [] [] (map (fun a => nth a shape 0) (ft_perm lg half t))).
+
+(* ================================================================================================ *)
+(* what the product-state tensors contract to (value level, chain topology)                          *)
+(* ================================================================================================ *)
+Definition delta (a b : nat) : Z := if a =? b then 1%Z else 0%Z.
+Definition zsum (d : nat) (f : nat -> Z) : Z := fold_right (fun k acc => (f k + acc)%Z) 0%Z (seq 0 d).
+(* entries of the (zero-padded) tensors of MatrixProductState.constant_product_state: a single 1 at
+   [0, 0, sv] (middle sites) resp. [0, sv] (the two ends), whatever the bond dimensions *)
+Definition cps_mid (sv l r p : nat) : Z := (delta l 0 * delta r 0 * delta p sv)%Z.
+Definition cps_end (sv b p : nat) : Z := (delta b 0 * delta p sv)%Z.
+(* sum over all bond indices of the product of the entries, sites left to right; l = index of the
+   bond entering from the left *)
+Fixpoint chain_val (sv : nat) (bonds : list nat) (ps : list nat) (l : nat) : Z :=
+  match bonds, ps with
+  | d :: bonds', p :: ps' => zsum d (fun r => (cps_mid sv l r p * chain_val sv bonds' ps' r)%Z)
+  | [], [p] => cps_end sv l p
+  | _, _ => 0%Z
+  end.
+Definition mps_val (sv : nat) (bonds : list nat) (ps : list nat) : Z :=
+  match bonds, ps with
+  | d :: bonds', p :: ps' => zsum d (fun r => (cps_end sv r p * chain_val sv bonds' ps' r)%Z)
+  | _, _ => 0%Z
+  end.
